@@ -27,6 +27,18 @@ STRENGTHENED = {
     "C07-r2-m1": "missed at first: no dotted rectangle with round dots met a far offset (> 2²⁴); class added",
     "C07-r2-m2": "domain extended before the first run: nearly parallel joints at negative coordinates",
     "C07-r2-m3": "domain extended before the first run: offsets far from BOTH axes (this also exposed the genuine defect D21)",
+    "C09-r2-m1": "missed at first: no huge image sizes; `ImageRaw::new` is now probed on sizes up to u32::MAX² (this exposed the genuine defect D23)",
+    "C09-r2-m2": "missed at first: images were only drawn on unclipped targets, so nobody called `nth` on the colour iterator; C09 (and C10 for `as_image`) now draw through `.clipped()` with clips that cut several rows (this exposed the genuine defect D22)",
+    "C09-r2-m3": "detected as a panic verdict of the far `pixel()` probes",
+    "C10-r2-m1": "the same `nth` override as C09-r2-m2 from another seeder: same strengthening",
+    "C10-r2-m3": "marginal at first (2 cases): fill_contiguous streams now also end at n−1 and at random positions, half of the areas lie completely inside",
+    "C12-r2-m1": "missed at first: raw rows stopped at 2^bits; `from_u32` is now probed above the raw type's range (only the low bits count, as documented)",
+    "C14-r2-m1": "missed at first: no line with CR; `Trace_C14` now models the one-trailing-CR rule of `Text` and the recorder draws lines ending in 1–4 CRs",
+    "C15-r2-m1": "missed at first: every target was unbounded; clause (g) added: targets reporting tiny / empty bounding boxes return the same position and paint the same pixels inside",
+    "C17-r2-m1": "domain extended before the first run: Inside / Outside stroke alignment on a third of the medium lines",
+    "C17-r2-m2": "domain extended before the first run: very long lines (count and end points only)",
+    "C17-r2-m3": "detected by C07 after single stroked lines at offsets up to 2·10⁹ were added",
+    "C19-r2-m2": "reported by C08 at first; C19 now has display-scale triangles of its own",
     "C17-m1": "domain extended before the first run: long wide lines beyond w·len = 23 170 (the old overflow bound of the library)",
 }
 rows = []
